@@ -225,6 +225,11 @@ fn run_op(st: &mut St, op: &Vec<J>) -> String {
             add_rules(&mut kb, rules);
             st.set(op[1].usize(), V::KB(Box::leak(Box::new(kb)))); "ok".to_string()
         },
+        "dumpkb" => {
+            let kb = st.kb(op[1].usize());
+            let mut keys: Vec<&String> = kb.keys().collect(); keys.sort();
+            keys.iter().map(|k| format!("{}=[{}]", k, kb.get(*k).unwrap().iter().map(dump_rule).collect::<Vec<_>>().join(","))).collect::<Vec<_>>().join(";")
+        },
         "showkb" => format_kb(st.kb(op[1].usize())),
         "getrule" => {
             let r = get_rule(st.kb(op[2].usize()), op[3].str(), op[4].usize());
